@@ -246,6 +246,10 @@ def report(prop, a, seed, results, wall):
     else:
         code = 0
 
+    if os.environ.get("VERIF_TRACE") and not a.only:
+        os.makedirs(os.path.join(core.ROOT, "coverage"), exist_ok=True)
+        ex = sorted({f"{os.path.relpath(f, '/repo')}:{ln}:{nm}" for r in results for f, ln, nm in r.get("executed", [])})
+        json.dump({"property_id": prop, "tier": a.tier, "functions_executed_in_symbolic_runs": ex}, open(os.path.join(core.ROOT, "coverage", f"{prop}.executed.json"), "w"), indent=1)
     if not a.no_evidence and not a.only:
         write_evidence(prop, a, seed, results, obl, discharged, total, known_hit, new_viol, wall, code, ledger_msgs)
     for ln in lines:
@@ -320,6 +324,7 @@ def write_evidence(prop, a, seed, results, obl, discharged, total, known_hit, ne
             "side_conditions": {"proved": sum(1 for _, s in side if s == "proved"), "assumed": sorted({t for t, s in side if s == "assumed"})[:40]},
             "rebinding_inventory": sorted({i for r in results for i in r.get("inventory", [])}),
             "kernel_selftest": [{"test": n, "ok": ok} for n, ok in KERNEL_SELFTEST],
+            **({"functions_executed_in_symbolic_runs": sorted({f"{os.path.relpath(f, '/repo')}:{ln}:{nm}" for r in results for f, ln, nm in r.get("executed", [])})} if os.environ.get("VERIF_TRACE") else {}),
             "second_opinion_z3": {"confirmed_unsat": sum((r.get("second_opinion") or {}).get("z3_unsat", 0) for r in results), "unknown_ring_only": sum((r.get("second_opinion") or {}).get("z3_unknown", 0) for r in results), "sample": next(((r.get("second_opinion") or {}).get("sample") for r in results if (r.get("second_opinion") or {}).get("sample")), None)},
             "bounded_standins_not_counted": bounded,
             "notes": notes,
